@@ -123,7 +123,11 @@ def palette():
           _simple("s8+poly3terms", "Integer", I(8, "signed", default_cal=POLY_3), 8),
           _simple("u8+spline0", "Integer", I(8, default_cal=SPL0), 8),
           _simple("u8+spline1+extrapolate", "Integer", I(8, default_cal=SPL1X), 8, core=True),
-          _simple("f32+poly", "Float", F(32, default_cal=Poly(((0.0, 0), (2.0, 1)))), 32)]
+          _simple("f32+poly", "Float", F(32, default_cal=Poly(((0.0, 0), (2.0, 1)))), 32),
+          # numbers that need all their digits: 17-digit and very small / large coefficients, spline coordinates, time scales
+          _simple("u8+poly(long coefficients)", "Integer", I(8, default_cal=Poly(((1234567.5, 0), (1.52587890625e-05, 1), (0.1, 2), (-0.3333333333333333, 3)))), 8),
+          _simple("u8+spline1(long coordinates)", "Integer", I(8, default_cal=Spline(((0.0, -273.15000000000003), (100.5, 1e-07), (255.0, 12345678.901234567)), 1, True)), 8),
+          _simple("s16+ctx(long coefficients)", "Integer", I(16, "signed", ctx_cals=(CtxCal((Cmp("PKT_APID", ">=", "1"),), Poly(((2.718281828459045, 0), (6.02214076e+23, 1)))),)), 16)]
 
     def ctx2(tag, ctx):
         return IntEnc(8, default_cal=Poly(((100.0, 0), (1.0, 1))), ctx_cals=(
@@ -193,5 +197,7 @@ def palette():
     # time
     K += [_simple("abstime-u32(scale,offset,units,epoch)", "AbsoluteTime", I(32), 32, core=True, unit="seconds", scale=0.5, offset=16.0, epoch="TAI"),
           _simple("reltime-u16(scale only)", "RelativeTime", I(16), 16, scale=0.125),
-          _simple("abstime-u16(offsetFrom)", "AbsoluteTime", I(16), 16, unit="s", offset_from="SRC_SEQ_CTR")]
+          _simple("abstime-u16(offsetFrom)", "AbsoluteTime", I(16), 16, unit="s", offset_from="SRC_SEQ_CTR"),
+          _simple("reltime-u32(long scale and offset)", "RelativeTime", I(32), 32, scale=1.0000000000000002e-03, offset=-946727935.816),
+          _simple("abstime-u16(no scale, linear calibrator on the encoding)", "AbsoluteTime", I(16, default_cal=Poly(((1.5, 0), (0.5, 1)))), 16, unit="s")]
     return K
